@@ -13,9 +13,27 @@ import (
 	"golang.org/x/tools/go/ssa"
 )
 
+type opnd struct {
+	slot int32 // >= 0: local slot; -1: constant in val; -2: free variable index in idx; -3: absent
+	idx  int32
+	val  Val
+}
+
+type cinstr struct {
+	ins ssa.Instruction
+	ops []opnd
+	dst int32
+}
+
 type fnInfo struct {
-	slots map[ssa.Value]int
-	n     int
+	slots     map[ssa.Value]int
+	n         int
+	code      [][]cinstr // per block
+	intrinsic func(in *Interp, fr *frame, args []Val) Val
+	name      string
+	fn        *ssa.Function
+	epoch     int // item epoch in which calls was last reset
+	calls     int
 }
 
 type deferred struct {
@@ -112,6 +130,8 @@ type Interp struct {
 	curItem Item
 	startPrefix []pfx
 	lastReset int
+	itemEpoch int
+	touched []*fnInfo
 	domCheckEvery int
 	osStdout, osStderr *Val
 	rtypePtr  types.Type
@@ -182,9 +202,94 @@ func (in *Interp) info(fn *ssa.Function) *fnInfo {
 		}
 	}
 	fi.n = n
+	fi.code = make([][]cinstr, len(fn.Blocks))
+	var rands []*ssa.Value
+	for bi, b := range fn.Blocks {
+		cis := make([]cinstr, len(b.Instrs))
+		for ii, ins := range b.Instrs {
+			ci := cinstr{ins: ins, dst: -1}
+			if v, ok := ins.(ssa.Value); ok {
+				ci.dst = int32(fi.slots[v])
+			}
+			rands = ins.Operands(rands[:0])
+			ci.ops = make([]opnd, len(rands))
+			for oi, r := range rands {
+				ci.ops[oi] = in.compileOperand(fn, fi, *r)
+			}
+			cis[ii] = ci
+		}
+		fi.code[bi] = cis
+	}
+	name := fn.String()
+	if fn.Origin() != nil {
+		name = fn.Origin().String()
+	}
+	fi.name = name
+	fi.fn = fn
+	fi.intrinsic = in.intrinsics[name]
 	in.fnInfos[fn] = fi
 	return fi
 }
+
+func (in *Interp) compileOperand(fn *ssa.Function, fi *fnInfo, v ssa.Value) opnd {
+	switch x := v.(type) {
+	case nil:
+		return opnd{slot: -3}
+	case *ssa.Const:
+		// constants of unsupported types are materialised lazily (panic at use)
+		var val Val
+		ok := func() (ok bool) {
+			defer func() {
+				if r := recover(); r != nil {
+					ok = false
+				}
+			}()
+			val = in.constVal(x)
+			return true
+		}()
+		if !ok {
+			return opnd{slot: -4, val: x}
+		}
+		return opnd{slot: -1, val: val}
+	case *ssa.Global:
+		return opnd{slot: -1, val: in.global(x)}
+	case *ssa.Function:
+		return opnd{slot: -1, val: x}
+	case *ssa.Builtin:
+		return opnd{slot: -1, val: x}
+	case *ssa.FreeVar:
+		for i, fv := range fn.FreeVars {
+			if fv == x {
+				return opnd{slot: -2, idx: int32(i)}
+			}
+		}
+		panic("free var not found")
+	}
+	i, ok := fi.slots[v]
+	if !ok {
+		panic(fmt.Sprintf("no slot for %T %s in %s", v, v.Name(), fn))
+	}
+	return opnd{slot: int32(i)}
+}
+
+// op returns the i-th operand of the instruction.
+func (fr *frame) op(ci *cinstr, i int) Val {
+	o := &ci.ops[i]
+	if o.slot >= 0 {
+		return fr.locals[o.slot]
+	}
+	switch o.slot {
+	case -1:
+		return o.val
+	case -2:
+		return fr.env[o.idx]
+	case -4:
+		return fr.in.constVal(o.val.(*ssa.Const))
+	}
+	return nil
+}
+
+func (fr *frame) has(ci *cinstr, i int) bool { return ci.ops[i].slot != -3 }
 
 func (in *Interp) global(g *ssa.Global) *Val {
 	if p, ok := in.globals[g]; ok {
@@ -321,13 +426,16 @@ func (in *Interp) Call(caller *frame, fv Val, args []Val) Val {
 }
 
 func (in *Interp) callFunction(caller *frame, fn *ssa.Function, args []Val, env []Val) Val {
-	name := fn.String()
-	if fn.Origin() != nil {
-		name = fn.Origin().String()
+	fi := in.info(fn)
+	name := fi.name
+	if fi.epoch != in.itemEpoch {
+		fi.epoch = in.itemEpoch
+		fi.calls = 0
+		in.touched = append(in.touched, fi)
 	}
-	if h, ok := in.intrinsics[name]; ok {
-		in.stubsSeen[name]++
-		return h(in, caller, args)
+	fi.calls++
+	if fi.intrinsic != nil {
+		return fi.intrinsic(in, caller, args)
 	}
 	if in.initMode && fn.Pkg != nil && !initAllow[fn.Pkg.Pkg.Path()] {
 		return in.zeroResult(fn.Signature)
@@ -343,16 +451,10 @@ func (in *Interp) callFunction(caller *frame, fn *ssa.Function, args []Val, env 
 			return nil
 		}
 	}
-	if !in.initMode {
-		if !in.funcsSeen[fn] {
-			in.funcsSeen[fn] = true
-		}
-	}
 	in.callDepth++
 	if in.callDepth > 400 {
 		panic(pathEnd{endBudget, "call depth > 400 in " + name})
 	}
-	fi := in.info(fn)
 	fr := &frame{in: in, fn: fn, info: fi, locals: make([]Val, fi.n), env: env, caller: caller}
 	for i := range fn.Params {
 		fr.locals[i] = args[i]
@@ -417,13 +519,13 @@ func (in *Interp) runFrame(fr *frame) {
 		}
 	}()
 	for {
-		blk := fr.block
-		for _, ins := range blk.Instrs {
+		code := fr.info.code[fr.block.Index]
+		for i := range code {
 			in.steps++
 			if in.steps > in.maxSteps {
 				panic(pathEnd{endBudget, fr.fn.String()})
 			}
-			switch in.exec(fr, ins) {
+			switch in.exec(fr, &code[i]) {
 			case kReturn:
 				fr.block = nil
 				return
@@ -475,39 +577,40 @@ func (in *Interp) deref(p Val) *Val {
 	return pp
 }
 
-func (in *Interp) exec(fr *frame, instr ssa.Instruction) cont {
+func (in *Interp) exec(fr *frame, ci *cinstr) cont {
+	instr := ci.ins
 	switch ins := instr.(type) {
 	case *ssa.DebugRef:
 	case *ssa.UnOp:
-		fr.set(ins, in.unop(fr, ins, fr.get(ins.X)))
+		fr.locals[ci.dst] = in.unop(fr, ins, fr.op(ci, 0))
 	case *ssa.BinOp:
-		fr.set(ins, in.binop(ins.Op, ins.X.Type(), fr.get(ins.X), fr.get(ins.Y)))
+		fr.locals[ci.dst] = in.binop(ins.Op, ins.X.Type(), fr.op(ci, 0), fr.op(ci, 1))
 	case *ssa.Call:
-		fn, args := in.prepareCall(fr, &ins.Call)
-		fr.set(ins, in.Call(fr, fn, args))
+		fn, args := in.prepareCall(fr, &ins.Call, ci)
+		fr.locals[ci.dst] = in.Call(fr, fn, args)
 	case *ssa.ChangeInterface:
-		fr.set(ins, fr.get(ins.X))
+		fr.locals[ci.dst] = fr.op(ci, 0)
 	case *ssa.ChangeType:
-		fr.set(ins, fr.get(ins.X))
+		fr.locals[ci.dst] = fr.op(ci, 0)
 	case *ssa.Convert:
-		fr.set(ins, in.conv(ins.Type(), ins.X.Type(), fr.get(ins.X)))
+		fr.locals[ci.dst] = in.conv(ins.Type(), ins.X.Type(), fr.op(ci, 0))
 	case *ssa.SliceToArrayPointer:
 		panic(in.unsupported("SliceToArrayPointer"))
 	case *ssa.MakeInterface:
-		fr.set(ins, Iface{t: ins.X.Type(), v: fr.get(ins.X)})
+		fr.locals[ci.dst] = Iface{t: ins.X.Type(), v: fr.op(ci, 0)}
 	case *ssa.Extract:
-		fr.set(ins, fr.get(ins.Tuple).(Tuple)[ins.Index])
+		fr.locals[ci.dst] = fr.op(ci, 0).(Tuple)[ins.Index]
 	case *ssa.Slice:
-		fr.set(ins, in.slice(fr.get(ins.X), ins.Low, ins.High, ins.Max, fr, ins))
+		fr.locals[ci.dst] = in.slice(fr.op(ci, 0), fr, ci)
 	case *ssa.Return:
 		switch len(ins.Results) {
 		case 0:
 		case 1:
-			fr.result = fr.get(ins.Results[0])
+			fr.result = fr.op(ci, 0)
 		default:
 			res := make(Tuple, len(ins.Results))
-			for i, r := range ins.Results {
-				res[i] = fr.get(r)
+			for i := range ins.Results {
+				res[i] = fr.op(ci, i)
 			}
 			fr.result = res
 		}
@@ -518,18 +621,18 @@ func (in *Interp) exec(fr *frame, instr ssa.Instruction) cont {
 			panic(fr.panicVal)
 		}
 	case *ssa.Panic:
-		panic(goPanic{fr.get(ins.X)})
+		panic(goPanic{fr.op(ci, 0)})
 	case *ssa.Send, *ssa.Go, *ssa.Select, *ssa.MakeChan:
 		panic(in.unsupported(fmt.Sprintf("%T", instr)))
 	case *ssa.Store:
-		p := fr.get(ins.Addr)
+		p := fr.op(ci, 0)
 		if sp, ok := p.(SymElemPtr); ok {
-			in.symStore(sp, fr.get(ins.Val))
+			in.symStore(sp, fr.op(ci, 1))
 			break
 		}
-		*in.deref(p) = copyVal(fr.get(ins.Val))
+		*in.deref(p) = copyVal(fr.op(ci, 1))
 	case *ssa.If:
-		c := fr.get(ins.Cond).(*Term)
+		c := fr.op(ci, 0).(*Term)
 		succ := 1
 		if in.Decide(c) {
 			succ = 0
@@ -540,15 +643,15 @@ func (in *Interp) exec(fr *frame, instr ssa.Instruction) cont {
 		fr.prev, fr.block = fr.block, fr.block.Succs[0]
 		return kJump
 	case *ssa.Defer:
-		fn, args := in.prepareCall(fr, &ins.Call)
+		fn, args := in.prepareCall(fr, &ins.Call, ci)
 		fr.defers = append(fr.defers, deferred{fn, args})
 	case *ssa.Alloc:
 		p := new(Val)
 		*p = in.zero(ins.Type().(*types.Pointer).Elem())
-		fr.set(ins, p)
+		fr.locals[ci.dst] = p
 	case *ssa.MakeSlice:
-		n := in.concInt(fr.get(ins.Len))
-		c := in.concInt(fr.get(ins.Cap))
+		n := in.concInt(fr.op(ci, 0))
+		c := in.concInt(fr.op(ci, 1))
 		if n < 0 || c < n || c > 1<<24 {
 			panic(in.runtimePanic("makeslice: len out of range"))
 		}
@@ -559,46 +662,46 @@ func (in *Interp) exec(fr *frame, instr ssa.Instruction) cont {
 				a[i] = copyVal(z)
 			}
 		}
-		fr.set(ins, Slice{a})
+		fr.locals[ci.dst] = Slice{a}
 	case *ssa.MakeMap:
-		fr.set(ins, newMap())
+		fr.locals[ci.dst] = newMap()
 	case *ssa.Range:
-		fr.set(ins, in.rangeIter(fr.get(ins.X)))
+		fr.locals[ci.dst] = in.rangeIter(fr.op(ci, 0))
 	case *ssa.Next:
-		fr.set(ins, in.next(fr.get(ins.Iter), ins))
+		fr.locals[ci.dst] = in.next(fr.op(ci, 0), ins)
 	case *ssa.FieldAddr:
-		p := in.deref(fr.get(ins.X))
+		p := in.deref(fr.op(ci, 0))
 		s, ok := (*p).(Struct)
 		if !ok {
 			panic(fmt.Sprintf("FieldAddr on %T in %s", *p, fr.fn))
 		}
-		fr.set(ins, &s[ins.Field])
+		fr.locals[ci.dst] = &s[ins.Field]
 	case *ssa.Field:
-		fr.set(ins, copyVal(fr.get(ins.X).(Struct)[ins.Field]))
+		fr.locals[ci.dst] = copyVal(fr.op(ci, 0).(Struct)[ins.Field])
 	case *ssa.IndexAddr:
-		fr.set(ins, in.indexAddr(fr.get(ins.X), in.widenIdx(fr.get(ins.Index), ins.Index.Type())))
+		fr.locals[ci.dst] = in.indexAddr(fr.op(ci, 0), in.widenIdx(fr.op(ci, 1), ins.Index.Type()))
 	case *ssa.Index:
-		fr.set(ins, in.index(fr.get(ins.X), in.widenIdx(fr.get(ins.Index), ins.Index.Type())))
+		fr.locals[ci.dst] = in.index(fr.op(ci, 0), in.widenIdx(fr.op(ci, 1), ins.Index.Type()))
 	case *ssa.Lookup:
-		fr.set(ins, in.lookup(ins, fr.get(ins.X), fr.get(ins.Index)))
+		fr.locals[ci.dst] = in.lookup(ins, fr.op(ci, 0), fr.op(ci, 1))
 	case *ssa.MapUpdate:
-		m := fr.get(ins.Map).(*Map)
+		m := fr.op(ci, 0).(*Map)
 		if m == nil {
 			panic(goPanic{RuntimePanic{"assignment to entry in nil map"}})
 		}
-		in.mapSet(m, fr.get(ins.Key), copyVal(fr.get(ins.Value)))
+		in.mapSet(m, fr.op(ci, 1), copyVal(fr.op(ci, 2)))
 	case *ssa.TypeAssert:
-		fr.set(ins, in.typeAssert(ins, fr.get(ins.X)))
+		fr.locals[ci.dst] = in.typeAssert(ins, fr.op(ci, 0))
 	case *ssa.MakeClosure:
 		var env []Val
-		for _, b := range ins.Bindings {
-			env = append(env, fr.get(b))
+		for i := range ins.Bindings {
+			env = append(env, fr.op(ci, i+1))
 		}
-		fr.set(ins, &Closure{ins.Fn.(*ssa.Function), env})
+		fr.locals[ci.dst] = &Closure{ins.Fn.(*ssa.Function), env}
 	case *ssa.Phi:
 		for i, pred := range ins.Block().Preds {
 			if fr.prev == pred {
-				fr.set(ins, fr.get(ins.Edges[i]))
+				fr.locals[ci.dst] = fr.op(ci, i)
 				break
 			}
 		}
@@ -608,8 +711,8 @@ func (in *Interp) exec(fr *frame, instr ssa.Instruction) cont {
 	return kNext
 }
 
-func (in *Interp) prepareCall(fr *frame, call *ssa.CallCommon) (Val, []Val) {
-	v := fr.get(call.Value)
+func (in *Interp) prepareCall(fr *frame, call *ssa.CallCommon, ci *cinstr) (Val, []Val) {
+	v := fr.op(ci, 0)
 	var args []Val
 	var fn Val
 	if call.Method == nil {
@@ -638,8 +741,8 @@ func (in *Interp) prepareCall(fr *frame, call *ssa.CallCommon) (Val, []Val) {
 			args = append(args, recv.v)
 		}
 	}
-	for _, a := range call.Args {
-		args = append(args, copyVal(fr.get(a)))
+	for i := range call.Args {
+		args = append(args, copyVal(fr.op(ci, i+1)))
 	}
 	return fn, args
 }
